@@ -78,6 +78,8 @@ pub fn classify(msg: &str) -> i128 {
         10
     } else if msg.starts_with("Input bedGraph not sorted by chromosome") {
         11
+    } else if msg.starts_with("Input bedGraph is not grouped by chromosome") {
+        12
     } else if msg.starts_with("Input bedGraph contains chromosome that isn't in the input chrom sizes") {
         20
     } else if msg.starts_with("Invalid bed graph: overlapping") {
